@@ -9,8 +9,9 @@ CONSTANTS
   Compats = {"Standard", "LegacySip"}
   Offerers = {"A", "B"}
   Scheds = {"plain", "slowSetRemote"}
+  Renegs = {"none", "offerer", "answerer"}
   Deviations = {}
-INVARIANTS TypeOK RolesComplementary SameSrtpKeys NeverFailed
+INVARIANTS TypeOK RolesComplementary SameSrtpKeys NeverFailed StaysConnected
 PROPERTIES ConnectsAndDelivers
 ACTION_CONSTRAINT NoEmit
 CHECK_DEADLOCK FALSE
